@@ -96,7 +96,7 @@ int run_case(Reader& r, bool& nontrivial, std::string& desc) {
         uint32_t nleaks = r.below(4) == 0 ? (r.below(8) == 0 ? r.below(3001) : r.below(401)) : r.below(12);
         bool longnames = r.flag();
         for (uint32_t i = 0; i < nleaks; i++) {
-            int kind = (int)r.below(3); size_t size = r.below(16) == 0 ? r.pick((const size_t[]){65, 300, 1000, 5000}) : r.below(65); int line = (int)r.below(100000);
+            int kind = (int)r.below(3); size_t size = r.below(8) == 0 ? r.pick((const size_t[]){65, 300, 700, 1000, 2000, 5000}) : r.below(65); int line = (int)r.below(100000);
             names.emplace_back(new std::string(longnames ? gen_file(r) : std::string("f.c")));
             char* p = det->allocMemory(g_alloc[kind], size, names.back()->c_str(), (size_t)line, kind == 2);
             if (!p) { cleanup(); return verif::fail("C14:alloc-null", "allocMemory returned NULL"); }
@@ -125,6 +125,11 @@ int run_case(Reader& r, bool& nontrivial, std::string& desc) {
                     for (auto& e : got) if (!want.count(e)) { cleanup(); return verif::fail("C14:report-entry", "report lists alloc num %u size %zu line %d which is not outstanding", e.number, e.size, e.line); }
                     bool too_many = t.find("Too many memory leaks to report") != std::string::npos;
                     if (got.size() < want.size() && !too_many) { cleanup(); return verif::fail("C14:report-dropped-silently", "%zu of %zu leaks listed and no notice that entries were dropped", got.size(), want.size()); }
+                    // an entry is its header line plus the dump of its bytes (one line per 16 bytes): a dump that was cut is dropped content too
+                    size_t need_lines = 0; for (auto& e : got) need_lines += (e.size + 15) / 16;
+                    size_t have_lines = 0; { std::string body = t.substr(0, tp); size_t q = 0; while ((q = body.find("\n    ", q)) != std::string::npos) { size_t c = body.find(": ", q + 5); if (c != std::string::npos && c - (q + 5) == 4 && body.find_first_not_of("0123456789abcdef", q + 5) == c) have_lines++; q += 5; } }
+                    if (have_lines < need_lines && !too_many) { cleanup(); return verif::fail("C14:report-dump-cut-silently", "the listed entries need %zu dump lines, %zu are present, and nothing says that the report was cut (text length %zu)", need_lines, have_lines, t.size()); }
+                    if (have_lines < need_lines) verif::cls("report-cut-inside-a-dump");
                     // the whole note, to its last line: the report reserves room for total, dropped-entries notice and note
                     bool note = t.find("Memory leak reports about malloc and free") != std::string::npos;
                     if (note && t.find("(#define malloc cpputest_malloc etc).\n") == std::string::npos) { cleanup(); return verif::fail("C14:report-note-truncated", "the closing note of the report is cut off (text length %zu)", t.size()); }
